@@ -550,7 +550,16 @@ func (c *HostClient) doNonNilReqResp(req *protocol.Request, resp *protocol.Respo
 	if (reqTimeout > 0 && reqTimeout < dialTimeout) || dialTimeout == 0 {
 		dialTimeout = reqTimeout
 	}
-	cc, inPool, err := c.acquireConn(dialTimeout)
+	// what is left of the whole-request timeout also bounds the wait for a free connection
+	var reqTimeoutLeft time.Duration
+	if reqTimeout > 0 {
+		shouldClose, left := updateReqTimeout(reqTimeout, 0, begin)
+		if shouldClose {
+			return false, errTimeout
+		}
+		reqTimeoutLeft = left
+	}
+	cc, inPool, err := c.acquireConn(dialTimeout, reqTimeoutLeft)
 	// if getting connection error, fast fail
 	if err != nil {
 		return false, err
@@ -795,7 +804,7 @@ func (c *HostClient) SetMaxConns(newMaxConns int) {
 	c.connsLock.Unlock()
 }
 
-func (c *HostClient) acquireConn(dialTimeout time.Duration) (cc *clientConn, inPool bool, err error) {
+func (c *HostClient) acquireConn(dialTimeout, reqTimeoutLeft time.Duration) (cc *clientConn, inPool bool, err error) {
 	createConn := false
 	startCleaner := false
 
@@ -833,6 +842,12 @@ func (c *HostClient) acquireConn(dialTimeout time.Duration) (cc *clientConn, inP
 		}
 
 		timeout := c.MaxConnWaitTimeout
+		timeoutOverridden := false
+		// the request timeout ends the wait if it comes first
+		if reqTimeoutLeft > 0 && reqTimeoutLeft < timeout {
+			timeout = reqTimeoutLeft
+			timeoutOverridden = true
+		}
 
 		// wait for a free connection
 		tc := timer.AcquireTimer(timeout)
@@ -843,7 +858,12 @@ func (c *HostClient) acquireConn(dialTimeout time.Duration) (cc *clientConn, inP
 		}
 		defer func() {
 			if err != nil {
-				w.cancel(c, err)
+				werr := err
+				if timeoutOverridden && err == errTimeout {
+					// the waiter leaves the queue because no connection became free in time
+					werr = errs.ErrNoFreeConns
+				}
+				w.cancel(c, werr)
 			}
 		}()
 
@@ -859,6 +879,9 @@ func (c *HostClient) acquireConn(dialTimeout time.Duration) (cc *clientConn, inP
 		case <-w.ready:
 			return w.conn, true, w.err
 		case <-tc.C:
+			if timeoutOverridden {
+				return nil, true, errTimeout
+			}
 			return nil, true, errs.ErrNoFreeConns
 		}
 	}
